@@ -323,8 +323,11 @@ let run_history (lines : string list) =
          | RSearch (None, n) -> emit (Printf.sprintf "r ok %s" (string_of_z n))
          | RPanic -> emit "r panic" | RCrash -> emit "r crash" | _ -> emit "r ?")
     | [ "len"; sid ] ->
+        (* the length of a FAILED search is not an observable: how many entries a full scan had gathered before the
+           read that failed is Go map order *)
+        let failed = (find_srch !st.s_h (n_of_int (int_of_string sid))).sr_err <> None in
         (match do_step (OLen (n_of_int (int_of_string sid))) with
-         | RNum (Ok n) -> emit ("r ok " ^ string_of_z n)
+         | RNum (Ok n) -> emit ("r ok " ^ (if failed then "*" else string_of_z n))
          | _ -> emit "r ?")
     | [ "collect"; sid; lim; rv; mode ] ->
         let lim = ZZ.of_string lim in
